@@ -847,12 +847,13 @@ def h_accept(env):
 
 def _accept_shapes(tier):
     out = [dict(k=1, owners="mixed", ops=2, hosts=2, active=1)]
-    for k, ow in ((2, "same"), (2, "mixed"), (2, "distinct"), (3, "same"), (3, "mixed")):
+    for k, ow in ((2, "same"), (2, "mixed"), (2, "distinct"), (3, "mixed")):
         out.append(dict(k=k, owners=ow, ops=3, hosts=2, active=1))
     out.append(dict(k=3, owners="mixed", ops=3, hosts=1, active=0, via="build"))
     out.append(dict(k=2, owners="same", ops=2, hosts=1, active=2, replica_count=1))
     if tier == "thorough":
         out.append(dict(k=3, owners="distinct", ops=3, hosts=2, active=1))
+        out.append(dict(k=3, owners="same", ops=3, hosts=2, active=1))
         out.append(dict(k=1, owners="same", ops=3, hosts=2, active=1))
         for k in (2, 3):
             for ow in ("same", "mixed", "distinct"):
@@ -872,4 +873,235 @@ Contract(
     desc="sequences of <= 3 offer/remove operations on one or two UCSReplication objects of the same process, k in 1..3, symbolic "
          "footprints/capacities: a replica is accepted only if remaining capacity >= new footprint + worst case over any k-1 owners of the "
          "footprints held; never twice on an agent; accepted replicas are recorded (hosted_replicas, discovery); removal forgets them",
+)
+
+
+# =====================================================================================
+# C25 - bounded runs of the real request/answer protocol
+# =====================================================================================
+
+class _RepNet:
+    """n real UCSReplication objects (stub agents, one real Discovery each, no directory) wired through an
+    in-memory router with per-channel FIFO queues; the replicate(k) orders of the orchestrator are events too"""
+
+    def __init__(self, U, dep, k, copy_msgs):
+        from pydcop.infrastructure.discovery import Discovery
+        from pydcop.dcop.objects import AgentDef
+        self.k = k
+        self.copy_msgs = copy_msgs
+        self.dep = dep
+        self.reps, self.discs, self.done, self.raw_hosts = OrderedDict(), {}, {}, {}
+        self.channels = OrderedDict()
+        self.todo = deque()
+        self.delivered = 0
+        self.accepts = []
+        owner = {c: a for a, cs in dep["comps"].items() for c in cs}
+        self.owner = owner
+        for a in dep["agents"]:
+            adef = AgentDef(a, capacity=dep["capacity"][a], default_route=dep["default_route"], routes=dict(dep["routes"].get(a, {})),
+                            default_hosting_cost=dep["default_hosting"], hosting_costs=dict(dep["hosting"].get(a, {})))
+            active = [_ActiveComp(c, dep["footprint"][c]) for c in dep["comps"].get(a, [])]
+            agent = _StubAgent(a, adef, active)
+            d = Discovery(a, "addr_" + a)
+            for b in dep["agents"]:
+                d.register_agent(b, "addr_" + b, publish=False)
+            for c, b in owner.items():
+                d.register_computation(c, b, publish=False)
+            r = U.UCSReplication(agent, d, k_target=k)
+            r.message_sender = self._post
+            self.done[a] = []
+            r.replication_done = (lambda hosts, _a=a: self.done[_a].append({c: set(h) for c, h in hosts.items()}))
+            orig = r.computation_replicated
+
+            def replicated(computation, hosts, _o=orig, _a=a):
+                self.raw_hosts.setdefault(computation, []).append(list(hosts))
+                return _o(computation, hosts)
+            r.computation_replicated = replicated
+            orig_acc = r._accept_replica
+
+            def accept(origin_agt, comp_def, footprint, _o=orig_acc, _r=r, _a=a):
+                rem = dep["capacity"][_a] - sum(dep["footprint"][c] for c in dep["comps"].get(_a, []))
+                worst = _worst_case(dict(_r.hosted_replicas), k)
+                self.accepts.append(dict(agent=_a, computation=comp_def.name, footprint=footprint, remaining=rem, worst_case_held=worst,
+                                         ok=(rem >= footprint + worst), own=comp_def.name in _r.computations,
+                                         twice=comp_def.name in _r.hosted_replicas))
+                return _o(origin_agt, comp_def, footprint)
+            r._accept_replica = accept
+            for c in dep["comps"].get(a, []):
+                r.add_computation(_comp_def(c, dep["neighbors"][c]), dep["footprint"][c])
+            self.reps[a], self.discs[a] = r, d
+            self.todo.append(a)
+
+    def _post(self, src, dst, msg, prio=None, on_error=None):
+        if self.copy_msgs:
+            import copy
+            msg = copy.deepcopy(msg)          # what serialisation between two processes does
+        self.channels.setdefault((src, dst), deque()).append(msg)
+
+    def events(self):
+        ev = [("replicate", a) for a in self.todo]
+        ev += [("deliver", key) for key, q in self.channels.items() if q]
+        return ev
+
+    def fire(self, ev):
+        kind, what = ev
+        if kind == "replicate":
+            self.todo.remove(what)
+            self.reps[what].start()
+            self.reps[what].replicate(self.k)
+        else:
+            msg = self.channels[what].popleft()
+            self.delivered += 1
+            self.reps[what[1][len("_replication_"):]].on_message(what[0], msg, 0)
+
+    def start_all_then(self):
+        """the computations are started by the agents before the orchestrator asks for replication"""
+        for r in self.reps.values():
+            r.start()
+
+
+def _gen_deployment(rng, n_agents, max_comps):
+    agents = AGENTS[:n_agents]
+    rng.shuffle(agents)
+    comps, i = {}, 0
+    for a in agents:
+        comps[a] = []
+        for _ in range(rng.randint(0 if n_agents > 3 and rng.random() < 0.2 else 1, max_comps)):
+            comps[a].append("v%d" % (7 * i % 13))
+            i += 1
+    allc = [c for a in agents for c in comps[a]]
+    nb = {c: set() for c in allc}
+    order = list(allc)
+    rng.shuffle(order)
+    for j in range(1, len(order)):                      # connected, then a few extra links
+        o = order[rng.randrange(j)]
+        nb[order[j]].add(o)
+        nb[o].add(order[j])
+    for _ in range(rng.randint(0, len(order))):
+        x, y = rng.choice(order), rng.choice(order)
+        if x != y:
+            nb[x].add(y)
+            nb[y].add(x)
+    if len(order) > 2 and rng.random() < 0.15:          # an isolated computation
+        z = order[-1]
+        for o in nb[z]:
+            nb[o].discard(z)
+        nb[z] = set()
+    costs = rng.choice([[1], [1, 2, 3], [0, 1, 5], [0.5, 1.5, 2, 10]])
+    routes = {a: {} for a in agents}                    # symmetric, the way yamldcop builds the AgentDefs
+    for i1, a in enumerate(agents):
+        for b in agents[i1 + 1:]:
+            if rng.random() < 0.6:
+                routes[a][b] = routes[b][a] = rng.choice(costs)
+    return dict(
+        agents=agents, comps=comps, neighbors={c: sorted(v) for c, v in nb.items()},
+        footprint={c: rng.choice([0, 1, 2, 5]) for c in allc},
+        capacity={a: rng.choice([0, 3, 6, 10, 100]) for a in agents},
+        default_route=rng.choice(costs), default_hosting=rng.choice([0, 1, 4]),
+        routes=routes,
+        hosting={a: {c: rng.choice([0, 1, 3, 20]) for c in allc if rng.random() < 0.5} for a in agents},
+    )
+
+
+def h_protocol(env):
+    import importlib
+    U = env.call(importlib.import_module, "pydcop.replication.dist_ucs_hostingcosts")
+    if isinstance(U, Raised):
+        env.prove("protocol.module-imports", False, detail=lambda: U.tb)
+        return
+    p = env.params
+    policy = env.choice("schedule", p["schedules"])
+    copy_msgs = env.choice("messages", p.get("messages", ["copied", "shared"])) == "copied"
+    rng0 = _pyrandom.Random(p["seed"])
+    for it in range(p["runs"]):
+        dep = _gen_deployment(_pyrandom.Random(rng0.randrange(10 ** 9)), p["agents"], p["max_comps"])
+        k = 1 + (it + p["seed"]) % 3
+        _fresh_process_state(U)
+        det = lambda: dict(deployment=dep, k=k, schedule=policy, copied=copy_msgs, run=it)  # noqa
+        net = env.call(_RepNet, U, dep, k, copy_msgs)
+        if isinstance(net, Raised):
+            env.prove("protocol.replication-computations-are-built", False, detail=lambda: (det(), net.tb))
+            return
+        srng = _pyrandom.Random(it * 31 + 7)
+        steps = 0
+        while steps < p.get("max_steps", 4000):
+            ev = net.events()
+            if not ev:
+                break
+            if policy == "fifo":
+                e = ev[0]
+            elif policy == "lifo":
+                e = ev[-1]
+            elif policy == "rr":
+                e = ev[steps % len(ev)]
+            else:
+                e = ev[srng.randrange(len(ev))]
+            out = env.call(net.fire, e)
+            steps += 1
+            if isinstance(out, Raised):
+                env.prove("protocol.no-handler-raises", False, detail=lambda: (det(), e, out.tb))
+                return
+        env.cover("ran")
+        quiescent = not net.events()
+        if not env.prove("protocol.reaches-quiescence-within-the-step-bound", quiescent, detail=lambda: (det(), steps)):
+            return
+        if not _check_placement(env, net, dep, k, det):
+            return
+
+
+def _check_placement(env, net, dep, k, det):
+    ok = True
+    ok &= env.prove("protocol.every-agent-reports-replication-done", all(len(net.done[a]) >= 1 for a in dep["agents"]),
+                    detail=lambda: (det(), {a: len(v) for a, v in net.done.items()}))
+    bad = [x for x in net.accepts if not x["ok"]]
+    ok &= env.prove("protocol.C25.every-acceptance-had-remaining-capacity-for-new-footprint-plus-worst-case-of-k-1-owners", not bad,
+                    detail=lambda: (det(), bad[:2]))
+    if net.accepts:
+        env.cover("placed")
+    if any(len([h for h in dep["agents"] if c in net.reps[h].hosted_replicas]) < min(k, len(dep["agents"]) - 1) for c in net.owner):
+        env.cover("target-not-reached")
+    if any(len([h for h in dep["agents"] if c in net.reps[h].hosted_replicas]) == k for c in net.owner):
+        env.cover("target-reached")
+    for c, a in net.owner.items():
+        holders = [h for h in dep["agents"] if c in net.reps[h].hosted_replicas]
+        d2 = lambda: (det(), dict(computation=c, owner=a, holders=holders, reported=[x.get(c) for x in net.done[a]],  # noqa
+                                  raw=net.raw_hosts.get(c)))
+        ok &= env.prove("protocol.replicas-are-not-on-the-owner", a not in holders, detail=d2)
+        ok &= env.prove("protocol.at-most-k-replicas", len(holders) <= k, detail=d2)
+        ok &= env.prove("protocol.replicas-are-on-distinct-agents", all(_no_dup(hs) for hs in net.raw_hosts.get(c, [])), detail=d2)
+        ok &= env.prove("protocol.each-replica-is-recorded-in-discovery",
+                        all(h in net.discs[h].replica_agents(c) for h in holders), detail=d2)
+        ok &= env.prove("protocol.each-replica-is-held-for-its-owner", all(net.reps[h].hosted_replicas[c][0] == a for h in holders), detail=d2)
+        if net.done[a]:
+            ok &= env.prove("protocol.reported-hosts-are-the-agents-holding-a-replica",
+                            set(net.done[a][-1].get(c, set())) == set(holders), detail=d2)
+    return ok
+
+
+def _protocol_shapes(tier):
+    runs = 12 if tier == "quick" else 60
+    out = []
+    for i, (n, mc) in enumerate([(3, 1), (3, 2), (4, 1), (4, 2), (5, 2), (6, 1)]):
+        out.append(dict(agents=n, max_comps=mc, seed=11 + i, runs=runs, schedules=["fifo", "random", "lifo", "rr"]))
+    if tier == "thorough":
+        for i, (n, mc) in enumerate([(3, 2), (4, 2), (5, 1), (6, 2)]):
+            out.append(dict(agents=n, max_comps=mc, seed=101 + i, runs=runs, schedules=["random", "fifo"]))
+    return out
+
+
+Contract(
+    "replication.protocol_runs", ["C25"],
+    ["pydcop.replication.dist_ucs_hostingcosts:UCSReplication.replicate", "pydcop.replication.dist_ucs_hostingcosts:UCSReplication.on_replicate_request",
+     "pydcop.replication.dist_ucs_hostingcosts:UCSReplication.on_replicate_answer", "pydcop.replication.dist_ucs_hostingcosts:UCSReplication._visit_path",
+     "pydcop.replication.dist_ucs_hostingcosts:UCSReplication._add_hosting_path", "pydcop.replication.dist_ucs_hostingcosts:UCSReplication.computation_replicated",
+     "pydcop.replication.path_utils:affordable_path_from", "pydcop.replication.path_utils:cheapest_path_to", "pydcop.replication.path_utils:remove_path"],
+    h_protocol, _protocol_shapes,
+    mode="E", must_cover=["ran", "placed", "target-reached", "target-not-reached"],
+    budget=dict(quick=dict(max_paths=20000, timeout_s=300), thorough=dict(max_paths=400000, timeout_s=3000)),
+    assumptions=["replication protocol: no agent leaves during replication; every agent's discovery already knows all agents and active computations",
+                 "replication protocol: route costs are symmetric and >= 0 (as pydcop.dcop.yamldcop builds them), hosting costs and footprints >= 0"],
+    trusted=["stub Agent (name, agent_def, computations()) and an in-memory FIFO router replace Agent/Messaging/communication layer"],
+    desc="BOUNDED TESTING of the distributed search, not a termination proof: seeded pseudo-random deployments (3-6 agents, 0-2 computations each, "
+         "concrete capacities/route/hosting costs incl. ties and zeros, k in 1..3) run to quiescence under fifo/lifo/round-robin/random FIFO-channel schedules, "
+         "messages copied or shared; every agent reports replication_done, replicas not on the owner, <= k, distinct, recorded in discovery",
 )
